@@ -511,7 +511,8 @@ pub fn generate(seed: u64, cases: usize, out: &mut Vec<String>) {
                 }
             }
             let order = if r.chance(1, 10) { format!("9{}", r.pick(&["a", "d"])) } else { "-".to_string() };
-            let (skip, first) = if r.chance(1, 5) {
+            // a window over tied rows is not determined: skip / first with orderBy only without hops
+            let (skip, first) = if r.chance(1, 5) && (order == "-" || hops == "-") {
                 (if r.chance(1, 2) { r.below(3).to_string() } else { "-".into() }, if r.chance(2, 3) { r.below(4).to_string() } else { "-".into() })
             } else {
                 ("-".into(), "-".into())
@@ -552,7 +553,8 @@ pub fn run(args: &[&str]) -> String {
             let db = build_db(&parse_nodes(nodes), &parse_edges(edges));
             let text = render_graphql(label, hops, preds, cols, order, skip, first);
             let s = db.session();
-            show_result(*order != "-", s.execute_graphql(&text))
+            // rows of one root object tie on the sort key: compare as a set when there are hops
+            show_result(*order != "-" && *hops == "-", s.execute_graphql(&text))
         }
         ["cross", nodes, edges, label, hops, preds, key] => {
             let last = if *hops == "-" { 0 } else { hops.split(',').count() };
